@@ -6,6 +6,10 @@ Decided on traced IR with every table entry symbolic (one symbol per (column,row
           outside (symbol identity - decided structurally, no value can differ otherwise);
   EQUIV   simulate(set(c)) == simulate(data_set(p))[p:=c] == simulate(make_trainable, params=p)[p:=c]
           as DAGs (structural, else congruence descent + z3);
+  PARTIAL the value given as the ONLY entry of param_state (data_set) or params (trainable), every other
+          column read from the tables, simulates like the same value given together with all other columns
+          (the route C01/C02 verify against the physics): DAG identity, else 1e-6 margin query; quick:
+          geometry and capacitance keys, thorough: every node key;
   WRITE   write_trainables stores exactly the simulated values (concrete side-check with
           pairwise distinct values - pure data movement in pandas).
 Views: compartment, branch, unequal-size branch groups, cell, named group, channel view, views
@@ -80,6 +84,67 @@ def build(name):
 def applicable(m, view, kind, key):
     tbl = view.nodes if kind == "node" else view.edges
     return key in tbl.columns and (~tbl[key].isna()).any()
+
+
+def _partial(inst, name, sel, key, sel_rows, kw, RUN, res, viol, timeout, rng):
+    import jax.numpy as jnp
+    import jaxley as jx
+    from ..equiv import _mp_confirms
+    m7 = build(name)
+    def sim_data(p):
+        return jx.integrate(m7, param_state=sel(m7).data_set(key, p, None), t_max=0.025, **kw)
+    m8 = build(name); sel(m8).make_trainable(key, verbose=False)
+    def sim_train(p):
+        return jx.integrate(m8, params=[{key: p}], t_max=0.025, **kw)
+    m9 = build(name); sm9 = simenc.SymModule(m9)
+    base = sm9.values_from_tables(); keys9 = sm9.keys()
+    pos = [int(np.where(sm9.cols[key] == r)[0][0]) for r in sel_rows]
+    def sim_full(p):
+        arrs = [jnp.asarray(a) for a in base]
+        kidx = keys9.index(key)
+        arrs[kidx] = arrs[kidx].at[jnp.asarray(pos)].set(p[0])
+        return jx.integrate(m9, param_state=sm9.pstate(arrs), t_max=0.025, **kw)
+    p = sym.symvec("pp", 1)
+    B = RUN(sim_full, p)
+    lo, hi = (0.2, 20.0) if key != "axial_resistivity" else (50.0, 5000.0)
+    for tag, fn in (("data_set", sim_data), ("trainable", sim_train)):
+        A = RUN(fn, p)
+        la, lb = equiv.flat(A.sym), equiv.flat(B.sym)
+        clause = f"PARTIAL_{tag}_only_vs_all_columns"
+        if len(la) != len(lb):
+            viol(clause, "output shapes differ"); continue
+        pairs = [(sym.lift(a), sym.lift(b)) for a, b in zip(la, lb) if a is not b]
+        if not pairs:
+            res["counters"][clause + "_structural"] = 1; continue
+        bad = None
+        for trial in range(3):
+            env = {"pp0": float(np.exp(rng.uniform(np.log(lo), np.log(hi))))}
+            va = sym.evalf([a for a, _ in pairs], env); vb = sym.evalf([b for _, b in pairs], env)
+            if any(abs(x - y) > 1e-7 * (1 + abs(x) + abs(y)) for x, y in zip(va, vb)) and _mp_confirms(pairs, env, 1e-7):
+                bad = env; break
+        if bad is not None:
+            differs, d = simenc.real_api_differs(A, B, lambda x, y: (equiv.flat(x), equiv.flat(y)), bad, tol=1e-7)
+            if differs:
+                viol(clause, f"{key} given as the only {tag} entry simulates differently from the same value given together with all other columns (real API relative deviation {d:.3g} at {key}={bad['pp0']:.4g})")
+                continue
+            res["inconclusive"].append({"instance": inst, "query": clause, "reason": "numeric difference not reproduced on the real API"}); continue
+        # positive verdict: equal up to 1e-6 relative for every value in the range (sub-terms that the partial route
+        # evaluates concretely are float64-rounded constants, so exact equality is not the claim)
+        q = smt.Query("C10/" + clause, flatten_div=True)
+        q.bounds("pp0", lo, hi)
+        tolq = const("1/1000000")
+        q.add_any([sym.bor(sym.lt(tolq * (const(1) + abs(b)), a - b), sym.lt(tolq * (const(1) + abs(b)), b - a)) for a, b in pairs])
+        r = q.check(timeout=min(timeout, 30))
+        res["counters"][f"{clause}_{r.status}"] = 1
+        if r.has_witness:
+            env = {"pp0": float(r.model.get("pp0", 1.0))}
+            differs, d = simenc.real_api_differs(A, B, lambda x, y: (equiv.flat(x), equiv.flat(y)), env, tol=1e-7)
+            if differs:
+                viol(clause, f"{key} given as the only {tag} entry simulates differently from the same value given together with all other columns (real API relative deviation {d:.3g} at {key}={env['pp0']:.4g})")
+            else:
+                res["inconclusive"].append({"instance": inst, "query": clause, "reason": "model not reproduced"})
+        elif r.status != "unsat":
+            res["inconclusive"].append({"instance": inst, "query": clause, "reason": r.status})
 
 
 def run_instance(inst):
@@ -231,6 +296,14 @@ def run_instance(inst):
                 viol("EQUIV_chained_set_vs_data_set", f"raised {type(ex).__name__}: {str(ex)[:100]}")
         else:
             res["counters"]["EQUIV_skipped_multi_group"] = 1
+        # --------------------------------------------------------- PARTIAL: the value arrives as the ONLY entry of param_state / params
+        # (every other column is read from the tables), against the all-columns-through-param_state route that C01/C02
+        # verify against the physics.  Catches code that decides from *which keys are present* what to recompute.
+        if single and kind == "node" and (key in ("radius", "length", "axial_resistivity", "capacitance") or not quick):
+            try:
+                _partial(inst, name, sel, key, sel_rows, kw, RUN, res, viol, timeout, rng)
+            except interp.NotEncodable as ex:
+                res["inconclusive"].append({"instance": inst, "query": "PARTIAL", "reason": str(ex)[:120]})
     # ------------------------------------------------------------- WRITE (concrete side-check)
     if not pre:
         m4 = build(name)
